@@ -177,6 +177,10 @@ func (c *Ctx) judgeC01(oc *PlainOutcome, nsample *int) {
 		}
 		return
 	}
+	if oc.Stage == "timeout" {
+		c.Run.Inconclusive("case " + oc.Case.Name + ": wall-clock watchdog fired (goderive or go build)")
+		return
+	}
 	msg := oc.Gen.Stderr
 	sym := "generation-fails:" + symptom(oc.Gen.Stderr)
 	if oc.Stage == "compile" {
